@@ -35,12 +35,19 @@ class C03(Prop):
     quick_cases = 1500
     thorough_cases = 1500000
 
+    def shrinkable(self, case):
+        return not case.get('modular')          # (the modular text would no longer belong to the shrunk formula)
+
     def gen(self, rng, ctx):
         want_future = rng.random() < 0.85
+        modular = rng.random() < 0.2
         for _ in range(200):
             c = bf_cfg(rng)
             if want_future:
                 c.future = True
+            if modular:
+                c.dup = 0.4                # a sub-formula occurs several times, possibly at different future depths
+                c.max_depth = max(c.max_depth, 2)
             f = lang.gen_formula(rng, c)
             h = lang.horizon(f)
             if h <= 12 and (h >= 1 or not want_future):
@@ -52,6 +59,13 @@ class C03(Prop):
             # the same durations written with unit suffixes (period 1 s, default unit s)
             case['mode'] = rng.choice(['end-only', 'begin-only', 'both', 'same-suffix'])
             case['sseed'] = rng.randrange(1 << 30)
+        elif modular and lang.depth(f) >= 2:
+            # the same formula written with named sub-specifications (every occurrence of a chosen sub-formula
+            # becomes a reference to one name)
+            top, defs = lang.decompose(rng, f, rng.randint(1, 3))
+            if defs:
+                case['modular'] = {'top': lang.to_jsonable(top), 'defs': [[nm, lang.to_jsonable(g)] for nm, g in defs],
+                                   'consts': [], 'style': rng.choice(['one-text', 'subspecs'])}
         return case
 
 
@@ -84,8 +98,17 @@ class C03(Prop):
             v.skip = 'reference undefined (domain error)'
             return v
         kind = case.get('online_kind', 'dt')
+        sd = {'text': text, 'vars': names}
+        if case.get('modular'):
+            from rtverif.props.c09 import modular_sd
+            sd = modular_sd(case['modular'], names)
+            v.info['class:modular'] = 1
+            if any(sum(1 for g in lang.walk(lang.from_jsonable(case['modular']['top'])) if g == lang.V(nm)) +
+                   sum(1 for _, d in case['modular']['defs'] for g in lang.walk(lang.from_jsonable(d)) if g == lang.V(nm))
+                   >= 2 for nm, _ in case['modular']['defs']):
+                v.info['class:modular-name-referenced-twice'] = 1
         try:
-            m = drive.Mon(kind, {'text': text, 'vars': names})
+            m = drive.Mon(kind, sd)
             m.pastify()
         except Exception as e:
             v.bad('pastify-raises:' + type(e).__name__, '%s: pastify() raised %s: %s' % (text, type(e).__name__, e),
